@@ -371,7 +371,86 @@ def exec_case(ctx, case: Dict[str, Any]) -> None:
                        "callbacks": [(round(e["t"], 3), e["args"]) for e in cb_log]})
 
 
+def exec_shared_token(ctx, case: Dict[str, Any]) -> None:
+    """One CancellationToken governing several requests: k requests in flight on separate connections when it is
+    triggered, and m further requests started afterwards with the (already triggered) token."""
+    from chuk_mcp.protocol.messages.send_message import send_message, CancellationToken, CancelledError
+    k, m, tc, T = case["concurrent"], case["later"], case["tc"], case.get("T", 2.0)
+
+    async def main():
+        loop = asyncio.get_running_loop()
+        token = CancellationToken()
+        outs: List[Any] = []
+
+        async def one(tag: str):
+            pipe = Pipe(buffer=1000)
+            t0 = loop.time()
+            try:
+                res = ("return", await send_message(pipe.read, pipe.write, "tools/call", {"name": tag}, timeout=T,
+                                                    cancellation_token=token))
+            except BaseException as e:  # noqa
+                if isinstance(e, (KeyboardInterrupt, SystemExit)):
+                    raise
+                res = ("raise", e)
+            writes = []
+            while True:
+                try:
+                    writes.append(pipe.srv_recv.receive_nowait())
+                except Exception:
+                    break
+            pipe.close()
+            outs.append({"tag": tag, "res": res, "t0": t0, "t1": loop.time(), "writes": writes})
+
+        tasks = [asyncio.create_task(one(f"inflight-{i}")) for i in range(k)]
+        await vsleep_until(tc)
+        token.cancel()
+        t_cancel = loop.time()
+        await asyncio.gather(*tasks)
+        for j in range(m):
+            await one(f"later-{j}")
+        return outs, t_cancel
+
+    try:
+        (outs, t_cancel), _ = run_virtual(main, max_iterations=300_000)
+    except HangDetected as e:
+        ctx.violation("hang_or_no_deadline", f"shared token: {e}", case)
+        ctx.record(case, shape="hang")
+        return
+    ctx.count("outcomes", len(outs))
+    ctx.count("shared_token_requests", len(outs))
+    shape = []
+    for o in outs:
+        kind, val = o["res"]
+        reqs = [w for w in o["writes"] if getattr(w, "method", None) == "tools/call"]
+        notes = [w for w in o["writes"] if getattr(w, "method", None) == "notifications/cancelled"]
+        is_cancel = kind == "raise" and isinstance(val, CancelledError)
+        later = o["tag"].startswith("later")
+        if not is_cancel:
+            ctx.violation("cancellation_ignored", f"token shared by {k}+{m} requests: request {o['tag']} ended with {val!r} "
+                          f"at t={o['t1']} (token triggered at {t_cancel})", case)
+        elif o["t1"] > (o["t0"] if later else t_cancel) + POLL + EPS:
+            ctx.violation("cancel_late", f"token shared by {k}+{m} requests: {o['tag']} raised CancelledError at {o['t1']}, "
+                          f"token triggered at {t_cancel}", case)
+        if later:
+            if reqs:
+                ctx.violation("pre_cancelled_request_sent", f"{o['tag']} was started with a triggered token and was still "
+                              f"written", case)
+        else:
+            rid = getattr(reqs[0], "id", None) if reqs else None
+            named = [n for n in notes if (getattr(n, "params", None) or {}).get("requestId") == rid]
+            if len(notes) != 1 or len(named) != 1:
+                ctx.violation("cancelled_notification_count", f"token shared by {k}+{m} requests: {o['tag']} (id {rid!r}) "
+                              f"emitted {len(notes)} cancelled notifications, {len(named)} naming its id", case)
+        shape.append([o["tag"], "cancel" if is_cancel else kind, len(notes)])
+    ctx.record(case, shape=shape, nontrivial=True, cls=f"shared_token:{k}+{m}", sample={"case": case, "per_request": shape})
+
+
 def run(ctx):
+    for kk, mm in ((2, 0), (3, 0), (1, 1), (1, 2), (2, 1), (0, 2)):
+        for tc in (0.1, 0.3, 0.5, 0.75):
+            case = {"shared_token": True, "concurrent": kk, "later": mm, "tc": tc}
+            if ctx.mine():
+                exec_shared_token(ctx, case)
     for case in gen_cases(ctx):
         if not ctx.mine():
             continue
@@ -382,4 +461,7 @@ def run(ctx):
 
 
 def replay(ctx, case):
+    if case.get("shared_token"):
+        exec_shared_token(ctx, case)
+        return
     exec_case(ctx, case)
